@@ -319,6 +319,30 @@ func fileEdits(fset *token.FileSet, f *ast.File, src []byte, rel string, rules [
 				}
 			}
 
+			// A deferred Lock (the mirror image of the usual deferred Unlock)
+			// must wait the same cooperative way.
+			if ds, ok := st.(*ast.DeferStmt); ok && len(ds.Call.Args) == 0 {
+				if sel, ok := ds.Call.Fun.(*ast.SelectorExpr); ok && (sel.Sel.Name == "Lock" || sel.Sel.Name == "RLock") {
+					recv := exprText(fset, src, sel.X)
+					for _, r := range ruleOf("locks") {
+						try := "Try" + sel.Sel.Name
+						s := site(st)
+						text := fmt.Sprintf(
+							"defer func() { if verifsim.Active() { verifsim.Yield(%s); for !%s.%s() { verifsim.Blocked(%s) } } else { %s.%s() } }()",
+							s, recv, try, s, recv, sel.Sel.Name,
+						)
+						if strings.HasSuffix(recv, ".L") && sel.Sel.Name == "Lock" {
+							text = fmt.Sprintf("defer verifsim.LockLocker(%s, %s)", recv, s)
+						}
+						edits = append(edits, edit{start: off(st.Pos()), end: off(st.End()), text: text})
+						r.n++
+						replaced = true
+
+						break
+					}
+				}
+			}
+
 			if !replaced {
 				for _, kind := range []string{"calls", "callsafter"} {
 					for _, r := range ruleOf(kind) {
